@@ -419,6 +419,7 @@ def finish(prop, tier, seed, build, res, t0, level_text=""):
             "exhaustive": bool(res.streams) and all(s.exhaustive for s in res.streams.values()),
             "distribution": res.distribution,
             "correspondence_disagreements": n_dis,
+            "implementation_lines_executed_in_process": getattr(res, "code_lines", {"available": False}),
             "known_findings_reproduced": res.known_reproduced,
             "explanation": level_text,
             "notes": res.notes,
